@@ -143,6 +143,8 @@ func (a *schedChild) OnReceive(ctx vivid.ActorContext) {
 			if known {
 				x.ev(map[string]any{"e": "Stop", "a": a.name, "r": m.Ref, "s": "cancel", "tb": tb, "t": t})
 			}
+		case "stall":
+			_ = s.Loop(m.Recv, m.D, newRmsg(1, "tell", 16, randSrc(1)), vivid.WithSchedulerReference("stall-remote"))
 		case "clear":
 			tb := x.ms()
 			s.Clear()
@@ -237,18 +239,23 @@ func installSchedHook() {
 }
 
 // runSchedBehaviour replays one TLC behaviour in real time; healthy is false when the canary timer was late.
-func runSchedBehaviour(b *schedBehaviour) (events []map[string]any, healthy bool, modelArrivals, realArrivals map[int]int, err error) {
+func runSchedBehaviour(b *schedBehaviour, remoteStall bool) (events []map[string]any, healthy bool, modelArrivals, realArrivals map[int]int, err error) {
 	installSchedHook()
 	x := &schedExec{refs: map[string]vivid.ActorRef{}, refsCh: make(chan struct{}), failAt: map[string]int{}, killAt: map[string]int{}, arrived: map[int]int{}}
 	for _, p := range b.Paths {
 		x.names = append(x.names, strings.TrimPrefix(p, "/"))
 	}
 	name := func(p any) string { return strings.TrimPrefix(fmt.Sprint(p), "/") }
-	sys := actor.NewSystem(vivid.WithActorSystemContext(context.Background()), vivid.WithActorSystemLogger(silentLogger), vivid.WithActorSystemStopTimeout(2*time.Second))
+	sysOpts := []vivid.ActorSystemOption{vivid.WithActorSystemContext(context.Background()), vivid.WithActorSystemLogger(silentLogger), vivid.WithActorSystemStopTimeout(2 * time.Second)}
+	if remoteStall {
+		ensureRmsg()
+		sysOpts = append(sysOpts, vivid.WithActorSystemRemoting(fmt.Sprintf("127.0.0.1:%d", freePort())))
+	}
+	sys := actor.NewSystem(sysOpts...)
 	if err := sys.Start(); err != nil {
 		return nil, false, nil, nil, err
 	}
-	defer func() { _ = sys.Stop(2 * time.Second) }()
+	defer func() { go sys.Stop(2 * time.Second) }()
 	x.start = time.Now()
 	maker := vivid.SupervisionStrategyDecisionMakerFN(func(sctx vivid.SupervisionContext) (vivid.SupervisionDecision, string) {
 		return vivid.SupervisionDecisionRestart, "scripted"
@@ -286,6 +293,16 @@ func runSchedBehaviour(b *schedBehaviour) (events []map[string]any, healthy bool
 			}
 		}
 	}()
+	if remoteStall {
+		// one more job, not judged: a loop whose receiver lives on a node nobody listens on; every firing of it
+		// spends seconds in connection attempts - the other jobs of the system must not notice
+		dead, err := sys.CreateRef(fmt.Sprintf("127.0.0.1:%d", freePort()), "/nobody")
+		if err != nil {
+			return nil, false, nil, nil, err
+		}
+		sys.Tell(refs[x.names[0]], schedCmd{Op: "stall", Recv: dead, D: schedTick})
+		time.Sleep(10 * time.Millisecond)
+	}
 	base := time.Now()
 	x.mu.Lock()
 	x.start = base
@@ -415,7 +432,7 @@ func checkC20(c *core.Ctx) {
 			go func(bi int, b *schedBehaviour) {
 				defer wg.Done()
 				defer func() { <-sem }()
-				ev, healthy, model, real, err := runSchedBehaviour(b)
+				ev, healthy, model, real, err := runSchedBehaviour(b, false)
 				mu.Lock()
 				defer mu.Unlock()
 				if err != nil {
@@ -440,6 +457,31 @@ func checkC20(c *core.Ctx) {
 			}(bi, b)
 		}
 		wg.Wait()
+	}
+	// directed: local jobs next to a job whose remote receiver is unreachable
+	for i := 0; i < core.Pick(c, 2, 8) && !c.IsBroken(); i++ {
+		b := &schedBehaviour{Paths: []string{"/a", "/b"}}
+		add := func(t int, o ...any) {
+			b.Steps = append(b.Steps, struct {
+				T int   `json:"t"`
+				O []any `json:"o"`
+			}{T: t, O: o})
+		}
+		add(0, "sched", "/b", "r", "/b", "once", float64(2+i%2), float64(1), true)
+		add(0, "sched", "/b", "s", "/a", "loop", float64(1), float64(2), true)
+		add(1, "sched", "/a", "r", "/b", "once", float64(3), float64(3), true)
+		add(6, "tick")
+		ev, healthy, _, _, err := runSchedBehaviour(b, true)
+		if err != nil {
+			c.Broken("scheduler replay remote-stall#%d: %v", i, err)
+			break
+		}
+		c.Add("evaluations", 1)
+		if !healthy {
+			unhealthy++
+			continue
+		}
+		traces = append(traces, &Trace{Events: ev, Class: "sched-next-to-unreachable-remote-receiver", Name: fmt.Sprintf("remote-stall#%d", i), Scenario: b})
 	}
 	if c.IsBroken() {
 		return
